@@ -34,7 +34,13 @@ pub fn run(tier: Tier) -> i32 {
         // 1-in-16 sample of the others)
         if big || i % 16 == 0 {
             acc.count("files_also_queried_over_a_short_reading_source", 1);
-            crate::qcheck::run_queries_io("C02", &spec, &bytes, &model, &qs, acc, true);
+            // ... of the file as received by a sink accepting short and interrupted writes
+            match crate::common::write_file_short(&spec.cfg, &model.entries) {
+                Ok(short_bytes) => {
+                    crate::qcheck::run_queries_io("C02", &spec, &short_bytes, &model, &qs, acc, true);
+                }
+                Err(_) => acc.count("prerequisite_failed_writer_error_(C01)", 1),
+            }
         }
         if blocks > spec.cfg.index_levels as usize + 2 {
             acc.nontrivial += acc.evaluations - before;
